@@ -261,6 +261,13 @@ func getRequestHeader(src *fasthttp.RequestHeader) (dest http.Header) {
 
 // ServeFastHTTP implements the fasthttp.RequestHandler.
 func (h *Handler) ServeFastHTTP(ctx *fasthttp.RequestCtx) {
+	defer func() {
+		if e := recover(); e != nil {
+			ctx.Response.Reset()
+			ctx.SetStatusCode(fasthttp.StatusInternalServerError)
+			h.onFastHTTPError(ctx, core.NewPanicError(e))
+		}
+	}()
 	if ctx.Request.Header.ContentLength() > h.Service.MaxRequestLength {
 		ctx.SetStatusCode(fasthttp.StatusRequestEntityTooLarge)
 		return
